@@ -5,7 +5,7 @@ Proved in heap mode from the real source of py4hw/simulation.py:
   * propagateAll on such a list => every stateless block's outputs agree with the current values of its inputs
     (fixpoint), using only the abstract leaf contract (a block writes only wires it drives; only readers of those
     wires can be invalidated).
-findFirstDependentPosition's contract is assumed by the sorter proof and checked by a bounded stand-in.  Uniqueness
+findFirstDependentPosition is proved (three loops, quantified invariants) against the contract the sorter proof uses.  Uniqueness
 of the fixpoint on acyclic netlists / rejection of cycles follow from strict sortedness by the two induction
 schemata of DESIGN 4/C04 (meta-steps).  Completeness (acyclic => accepted) is not provable (1000-pass guard) and is
 bounded."""
@@ -15,7 +15,7 @@ from props import common
 from props.kernel_common import heap_item, q, bfail, bok, random_dag, eval_plan
 
 PROP = 'C04'
-FUNCS = ['Simulator.topologicalSort', 'Simulator.propagateAll']
+FUNCS = ['Simulator.topologicalSort', 'Simulator.propagateAll', 'Simulator.findFirstDependentPosition']
 
 
 def settle(seed=0, n=30, **kw):
@@ -118,7 +118,7 @@ def main(tier, seed, only=None):
     res = run.run_items(items)
     return run.finish(PROP, tier, res, t0, level='proof', seed=seed, functions=['py4hw/simulation.py::' + f for f in FUNCS],
                       assumptions=['abstract leaf contract (L1): propagate() writes only wires driven by the block, re-establishes the block\'s own output/input agreement, and can invalidate only blocks that read one of its outputs; each concrete leaf is proved to refine it in C07/C08/C09 (frame obligations)',
-                                   'findFirstDependentPosition: contract ASSUMED in the sorter proof (least position of a dependent, -1 if none); checked by the bounded stand-in only',
+                                   'findFirstDependentPosition is proved against the contract the sorter uses (least position of a dependent, -1 if none), with dep defined as: a propagatable block reading a wire driven by an output port; its requires (the evaluation list is duplicate-free and holds every propagatable block) are established by the first loop of topologicalSort, which is NOT proved (assumed)',
                                    'allLeaves / isClockable / isPropagatable / getOrCreateClockDriverSimulator / addClockable: frames assumed as declared in contracts/kernel.py',
                                    'uniqueness of the fixpoint and rejection of cycles of length >= 2 follow from strict sortedness by induction along the order / along a closed walk (meta-steps, DESIGN 4/C04)',
                                    common.dropped_note()],
